@@ -22,6 +22,7 @@ from jellyfysh.activator.tagger.surplus_cells_tagger import SurplusCellsTagger  
 from jellyfysh.activator.tagger.cell_bounding_potential_tagger import CellBoundingPotentialTagger  # noqa: E402
 from jellyfysh.activator.tagger.cell_veto_tagger import CellVetoTagger  # noqa: E402
 from jellyfysh.activator.tagger.cell_boundary_tagger import CellBoundaryTagger  # noqa: E402
+from jellyfysh.event_handler.cell_boundary_event_handler import CellBoundaryEventHandler  # noqa: E402
 
 
 def pos_in_cell(cell, unit, side=1.0):
@@ -56,6 +57,8 @@ def replay(beh, cfg, drift):
     cell_of = {u: beh["init"][u - 1] for u in range(1, nunits + 1)}
     occ.initialize([node(u, cell_of[u], u in relevant, False) for u in range(1, nunits + 1)])
     ns = types.SimpleNamespace(_internal_state=occ)
+    boundary = CellBoundaryEventHandler()
+    boundary.initialize(cells, 1)
     moving = None
     for step, obs in enumerate(beh["steps"]):
         op = obs["op"]
@@ -64,7 +67,20 @@ def replay(beh, cfg, drift):
                 moving = op["unit"]
                 occ.update([node(moving, cell_of[moving], moving in relevant, True)])
             elif op["name"] == "cross":
-                cell_of[moving] = (cell_of[moving] + (1 if op["up"] else ncells - 1)) % ncells
+                # the crossing itself is made by the real cell-boundary event handler, in both directions of motion
+                want_cell = (cell_of[moving] + (1 if op["up"] else ncells - 1)) % ncells
+                n = node(moving, cell_of[moving], moving in relevant, True)
+                n.value.velocity = [1.0 if op["up"] else -1.0, 0.0]
+                start = list(n.value.position)
+                t = boundary.send_event_time([n])
+                out = boundary.send_out_state()
+                got_cell = cidx[cells.position_to_cell(out[0].value.position)]
+                dt = t - Time(0.0, 0.0)
+                if got_cell != want_cell or not (0.0 < dt <= 1.0) or out[0].value.position[1] != start[1]:
+                    return dict(step=step, what="cell-boundary event does not put the active unit into the neighbouring cell "
+                                                "(motion in %s direction)" % ("positive" if op["up"] else "negative"),
+                                got=dict(cell=got_cell, dt=dt, position=out[0].value.position), want=want_cell, start=start, op=op)
+                cell_of[moving] = want_cell
                 occ.update([node(moving, cell_of[moving], moving in relevant, True)])
         except Exception as e:
             if obs["activeId"] == -2:
@@ -73,8 +89,19 @@ def replay(beh, cfg, drift):
         if obs["activeId"] == -2:
             return dict(step=step, what="model expects update() to raise, real code did not", op=op)
         got_occ = [[i[0] for i in occ[c]] for c in cl]
-        got_sur = [[i[0] for i in occ._surplus.get(c, [])] for c in cl]
-        got_keys = sorted(cidx[c] for c in occ._surplus)
+        try:
+            got_sur = [[i[0] for i in occ._surplus.get(c, [])] for c in cl]
+            got_keys = sorted(cidx[c] for c in occ._surplus)
+        except AttributeError:
+            # the per-cell surplus lists are not part of the public interface: without them the surplus units are attributed
+            # to the cell that contains them (public yield_surplus), and only the occupant lists are compared per cell
+            if exact:
+                drift.append(dict(step=step, what="attribute _surplus not found: surplus units taken from yield_surplus()"))
+                exact = False
+            got_sur = [[] for _ in cl]
+            for i in occ.yield_surplus():
+                got_sur[cell_of[i[0]]].append(i[0])
+            got_keys = sorted(c for c in range(len(cl)) if got_sur[c])
         act = list(occ.yield_active_cells())
         got_act = (act[0][1][0], cidx[act[0][0]]) if act else (-1, -1)
         want = (obs["occ"], obs["surplus"], sorted(obs["keys"]), (obs["activeId"], obs["activeCell"]))
